@@ -26,8 +26,12 @@ pub fn tag_type(x: u32, y: u32) -> Value {
         id == idy,
         t == ty,
     ];
+    // an explicitly constructed Custom(x) (not canonical when x names a specified type): still numerically x
+    let c = TagType::Custom(x);
+    let nc = [c == id, id == c, c == x, x == c, u32::from(c) == x, c.val() == x, u32::from(TagTypeId::from(c)) == x];
     json!({
         "k": "conv",
+        "nc": nc.iter().map(|b| if *b { 1 } else { 0 }).collect::<Vec<_>>(),
         "variant": variant(&t),
         "back": out::le(u32::from(t) as u64, 4),
         "val": out::le(t.val() as u64, 4),
@@ -46,8 +50,11 @@ pub fn mem_area_type(x: u32, y: u32) -> Value {
     let idy = MemoryAreaTypeId::from(y);
     let ty = MemoryAreaType::from(idy);
     let eqs = [id == ty, ty == id, id == idy, t == ty];
+    let c = MemoryAreaType::Custom(x);
+    let nc = [id == c, c == id, u32::from(MemoryAreaTypeId::from(c)) == x];
     json!({
         "k": "conv",
+        "nc": nc.iter().map(|b| if *b { 1 } else { 0 }).collect::<Vec<_>>(),
         "variant": variant(&t),
         "back": out::le(u32::from(MemoryAreaTypeId::from(t)) as u64, 4),
         "id_back": out::le(u32::from(id) as u64, 4),
